@@ -14,13 +14,13 @@ SEQ_NOTE = ("Trusted base: the reference model in the check, the white-box expor
 # id -> (engine, category, technique, text, design_ref, note)
 CHECKS = {
     "C01": ("sched", "model_checking", "stateless model checking of the implementation: preemption-bounded DFS under a controlled scheduler",
-            "Every schedule (within the preemption bound) of small multi-threaded scenarios on the REAL cache is executed and each Get is checked for provenance; includes engineered primary-hash collisions and string/[]byte keys.", "§4 C01", SCHED_NOTE),
+            "Every schedule (within the preemption bound) of small multi-threaded scenarios on the REAL cache is executed and each Get is checked for provenance; includes engineered primary-hash collisions and string/[]byte keys; plus an explicit-state search over single-client histories on colliding keys with TTLs, clock, sweeps and every applier lag, probing every key in every state.", "§4 C01", SCHED_NOTE),
     "C02": ("sched", "model_checking", "stateless model checking of the implementation: preemption-bounded DFS under a controlled scheduler",
-            "Every schedule within the bound of reader vs overwrite/Del/Clear/eviction/expiry scenarios on the real cache; oracle: no Get starting after OnExit(v) returns v.", "§4 C02", SCHED_NOTE),
+            "Every schedule within the bound of reader vs overwrite/Del/Clear/eviction/expiry scenarios on the real cache (incl. hash collisions); plus an explicit-state search over histories with every applier lag in which every key is read in every state; oracle: no Get starting after OnExit(v) returns v.", "§4 C02", SCHED_NOTE),
     "C03": ("sched", "model_checking", "explicit-state BFS over operation histories with every applier lag on the real cache (sequential driver: each event runs one thread exclusively; canonical white-box state key)",
             "Cost accounting invariants are checked in every reachable state of all bounded histories over adversarial cost alphabets (0 via Config.Cost, 1, 2, MaxCost, MaxCost+1), every rotation of the sampling map order.", "§4 C03", SCHED_NOTE),
     "C04": ("sched", "model_checking", "stateless model checking of the implementation: preemption-bounded DFS under a controlled scheduler (racy pairs) + explicit-state search over histories with every applier lag",
-            "Exactly-once OnExit accounting checked on every explored execution ending in Close.", "§4 C04", SCHED_NOTE),
+            "Exactly-once OnExit accounting checked on every explored execution ending in Close; in the history search additionally the state invariant 'accepted and not yet released == still held' in every reachable state.", "§4 C04", SCHED_NOTE),
     "C05": ("sched", "model_checking", "explicit-state BFS over operation histories with every applier lag on the real cache (sequential driver: each event runs one thread exclusively; canonical white-box state key) + preemption-bounded DFS with a second thread",
             "Every single-client history of Set/SetWithTTL/Del/Wait/Get to the depth bound with every applier lag and write-buffer sizes 1/2/8; the Del-wins oracle is evaluated on every transition.", "§4 C05", SCHED_NOTE),
     "C06": ("sched", "model_checking", "explicit-state BFS over operation histories with every applier lag on the real cache (sequential driver: each event runs one thread exclusively; canonical white-box state key); oracle = reference map + FIFO of pending writes",
